@@ -103,12 +103,26 @@ fn contract(n: usize, nstates: usize, k: usize) -> bool {
 #[kani::stub(crate::TokenStream::lookahead_token_type, stub_lookahead_token_type)]
 #[kani::stub(crate::TokenStream::token_types, stub_token_types)]
 fn c08_eval_symbolic_table() {
+    symbolic_table_body(MAX_T, 5, 3);
+}
+
+/// smaller instance for the quick tier: <= 4 transitions, <= 4 states, k <= 2
+#[kani::proof]
+#[kani::unwind(8)]
+#[kani::stub(std::fmt::format, stub_format)]
+#[kani::stub(crate::TokenStream::lookahead_token_type, stub_lookahead_token_type)]
+#[kani::stub(crate::TokenStream::token_types, stub_token_types)]
+fn c08_eval_symbolic_table_small() {
+    symbolic_table_body(4, 4, 2);
+}
+
+fn symbolic_table_body(max_n: usize, max_states: usize, max_k: usize) {
     let n: usize = kani::any();
-    kani::assume(n <= MAX_T);
+    kani::assume(n <= max_n);
     let nstates: usize = kani::any();
-    kani::assume(nstates >= 1 && nstates <= 5);
+    kani::assume(nstates >= 1 && nstates <= max_states);
     let k: usize = kani::any();
-    kani::assume(k <= 3);
+    kani::assume(k <= max_k);
     let mut i = 0;
     while i < MAX_T {
         let t = Trans(kani::any(), kani::any(), kani::any(), kani::any());
@@ -140,7 +154,7 @@ fn c08_eval_symbolic_table() {
         Ok(p) => assert!(exp == Some(*p)),
         Err(_) => assert!(exp.is_none()),
     }
-    kani::cover!(r.is_ok() && n == 6 && k == 3);
+    kani::cover!(r.is_ok() && n == max_n && k == max_k);
     kani::cover!(r.is_err() && n >= 2 && k >= 2);
     core::mem::forget(r);
     core::mem::forget(ts);
